@@ -580,7 +580,10 @@ func (c *Ctx) callEnv(s *State, fc *FuncContract, callee *ssa.Function, cc *ssa.
 		}
 		// free variables of closures are bound by the caller when known
 	}
-	if fc != nil && len(fc.Params) > 0 && callee != nil && len(callee.Blocks) > 0 && len(callee.Params) >= len(args) {
+	if fc != nil && len(fc.Params) > 0 && callee != nil && len(callee.Blocks) > 0 && len(callee.Params) != len(fc.Params) {
+		// the parameter list changed: the contract's positional names no longer line up; the source names
+		// (bound above) are the best reading of what it means
+	} else if fc != nil && len(fc.Params) > 0 && callee != nil && len(callee.Blocks) > 0 && len(callee.Params) >= len(args) {
 		// repo function with positional parameter names: the i-th name denotes the i-th SSA parameter
 		for i, pn := range fc.Params {
 			if i < len(args) && i < len(callee.Params) {
